@@ -4,3 +4,5 @@ pub mod icao_table;
 pub mod props;
 pub mod refdec;
 pub mod run;
+pub mod gen;
+pub mod alphabet;
